@@ -5,10 +5,17 @@ from .common import TRUSTED, Ctx
 
 def check(rep):
     ctx = Ctx(rep)
-    ER.rule_stats(ctx)
+    from . import statrules as SR
+    # probit and confidence_interval interpreted with symbolic numbers (any helper, table, data class or dispatch the code
+    # uses is followed); the path/idiom reading of evalrules.rule_stats is the fallback when the interpreter cannot follow
+    if not SR.report(ctx):
+        ER.rule_stats(ctx)
     rep.assume("NOT decided: z >= true normal quantile, narrowing in n, widening in confidence, radicand >= 0 on [0,1] "
                "(analytic facts about real functions, not shapes of code)")
-    return ("Path enumeration of confidence_interval (each known method, and the no-method path must raise; a membership test "
+    return ("Abstract interpretation of probit and confidence_interval with symbolic numbers (forking on comparisons the assumptions do not "
+            "decide; method names concrete: the documented ones in two spellings, and unknown names / substrings / the empty string, which "
+            "must raise); the resulting expressions are compared with the textbook formulas on a rational grid and by CAS normal form. "
+            "Fallback: path enumeration of confidence_interval (each known method, and the no-method path must raise; a membership test "
             "against a string constant is a substring test); expression trees of both methods and of probit converted to sympy and "
             "compared with the textbook Agresti-Coull / Wald formulas with the module's own z (CAS normal form, cross-checked on a "
             "rational grid); endpoints are exactly c -/+ one non-negative half-width; probit symmetric about 1/2.",
